@@ -7,6 +7,11 @@ use umya_spreadsheet::structs::{Comment, ConditionalFormatting, ConditionalForma
 
 const MAX_ROW: u32 = 1_048_576;
 const MAX_COL: u32 = 16_384;
+/// content tokens from here on are formula cells (`A1+<tok>`), below they are values (`v<tok>`)
+const FORMULA_TOK: u32 = 100;
+fn formula_text(tok: u32) -> String {
+    format!("A1+{}", tok)
+}
 
 /// The reference grid: written from the property text, independent of the library.
 #[derive(Clone, Default, Debug, PartialEq)]
@@ -138,7 +143,7 @@ pub fn dump_book(book: &Spreadsheet, k: usize) -> String {
 fn view_of_impl(ws: &Worksheet) -> RefSheet {
     let mut r = RefSheet::default();
     for (k, c) in ws.get_collection_to_hashmap().iter() {
-        r.cells.insert(*k, (c10::tok_of_value(&c.get_value()), c10::tok_of_style(c.get_style())));
+        r.cells.insert(*k, (c10::tok_of_cell(c), c10::tok_of_style(c.get_style())));
     }
     let corners = |rg: &umya_spreadsheet::structs::Range| {
         (
@@ -212,6 +217,63 @@ pub fn exec(out: &mut Out, st: &mut State, line: &str) -> (String, bool) {
                 let (rs, re, cs, ce) = (n(4), n(5), n(6), n(7));
                 let dr: i64 = a[8].parse().unwrap();
                 let dc: i64 = a[9].parse().unwrap();
+                // the situations the refinement theorems (C07_move_refines / C07_copy_refines) distinguish
+                {
+                    let w = a[3];
+                    let pre = &refs[i].cells;
+                    let in_src = |r: i64, c: i64| rs as i64 <= r && r <= re as i64 && cs as i64 <= c && c <= ce as i64;
+                    let kind = if dr == 0 && dc == 0 {
+                        "zero-offset"
+                    } else if dr.abs() <= (re - rs) as i64 && dc.abs() <= (ce - cs) as i64 {
+                        "overlap"
+                    } else {
+                        "disjoint"
+                    };
+                    out.count(&format!("mc.{}.{}", w, kind));
+                    let mut blank_over_occupied = false;
+                    let mut blank_over_occupied_inside = false;
+                    let mut any_src = false;
+                    let mut formula = false;
+                    for r in rs..=re {
+                        for c in cs..=ce {
+                            let (r2, c2) = (r as i64 + dr, c as i64 + dc);
+                            match pre.get(&(r, c)) {
+                                Some(v) => {
+                                    any_src = true;
+                                    if v.0 >= FORMULA_TOK {
+                                        formula = true;
+                                    }
+                                }
+                                None => {
+                                    if pre.contains_key(&(r2 as u32, c2 as u32)) {
+                                        if in_src(r2, c2) {
+                                            blank_over_occupied_inside = true;
+                                        } else {
+                                            blank_over_occupied = true;
+                                        }
+                                    }
+                                }
+                            }
+                        }
+                    }
+                    if blank_over_occupied {
+                        // the situation of the seeded changes C07 / C07b (move: that destination cell must go; copy: it stays)
+                        out.count(&format!("mc.{}.blank-source-over-occupied-destination", w));
+                    }
+                    if blank_over_occupied_inside {
+                        out.count(&format!("mc.{}.blank-source-over-occupied-destination-inside-source", w));
+                    }
+                    out.count(&format!("mc.{}.{}", w, if any_src { "source-has-cells" } else { "source-all-blank" }));
+                    if formula {
+                        out.count(&format!("mc.{}.formula-in-rectangle", w));
+                    }
+                    if rs as i64 + dr == 1 || cs as i64 + dc == 1 {
+                        out.count(&format!("mc.{}.destination-at-edge.row1-or-col1", w));
+                    }
+                    if re as i64 + dr == MAX_ROW as i64 || ce as i64 + dc == MAX_COL as i64 {
+                        out.count(&format!("mc.{}.destination-at-edge.maxrow-or-maxcol", w));
+                    }
+                }
                 let src: Vec<((u32, u32), (u32, u32))> = refs[i]
                     .cells
                     .iter()
@@ -266,6 +328,18 @@ pub fn exec(out: &mut Out, st: &mut State, line: &str) -> (String, bool) {
         }
         _ => ref_defined = false,
     }
+    // move / copy: the formula texts inside the source rectangle before the step
+    let mut formulas_before: Vec<((u32, u32), String)> = vec![];
+    let mut mc_off: (i64, i64) = (0, 0);
+    if a[1] == "cell" && (a[3] == "move" || a[3] == "copy") {
+        let (rs, re, cs, ce) = (n(4), n(5), n(6), n(7));
+        mc_off = (a[8].parse().unwrap(), a[9].parse().unwrap());
+        for (k, c) in st.book.get_sheet(&i).unwrap().get_collection_to_hashmap().iter() {
+            if c.is_formula() && rs <= k.0 && k.0 <= re && cs <= k.1 && k.1 <= ce {
+                formulas_before.push((*k, c.get_formula().to_string()));
+            }
+        }
+    }
     // the implementation's step
     let name = format!("S{}", i);
     let r = guard(|| {
@@ -283,7 +357,10 @@ pub fn exec(out: &mut Out, st: &mut State, line: &str) -> (String, bool) {
                     "setcell" => {
                         let mut c = umya_spreadsheet::structs::Cell::default();
                         c.get_coordinate_mut().set_col_num(nn(1)).set_row_num(nn(2));
-                        if nn(3) != 0 {
+                        if nn(3) >= FORMULA_TOK {
+                            // a formula cell with a relative reference: the text must travel unchanged under move / copy
+                            c.set_formula(formula_text(nn(3)));
+                        } else if nn(3) != 0 {
                             c.set_value(format!("v{}", nn(3)));
                         }
                         if nn(4) != 0 {
@@ -396,6 +473,24 @@ pub fn exec(out: &mut Out, st: &mut State, line: &str) -> (String, bool) {
                     return ("panic".into(), false);
                 }
             };
+            if !formulas_before.is_empty() {
+                // oracle: "formula text as they were" — the text at the translated position is the text before, character by character
+                let ws = st.book.get_sheet(&i).unwrap();
+                let mut bad: Option<String> = None;
+                for ((r, c), text) in &formulas_before {
+                    let (r2, c2) = ((*r as i64 + mc_off.0) as u32, (*c as i64 + mc_off.1) as u32);
+                    let got = ws.get_cell((c2, r2)).map(|x| x.get_formula().to_string());
+                    if got.as_deref() != Some(text.as_str()) {
+                        bad = Some(format!("formula {:?} of row {} col {} is {:?} at row {} col {}", text, r, c, got, r2, c2));
+                        break;
+                    }
+                }
+                out.count("mc.formula-text-compared");
+                match bad {
+                    Some(e) => out.oracle_fail(Fail::new("formula-text-changed").with("op", line).with("cause", cause).with("detail", e)),
+                    None => out.oracle_ok(),
+                }
+            }
             if ref_defined {
                 st.refs = refs;
                 // oracle: every sheet equals its reference (cells as content; annotations exactly)
@@ -445,6 +540,15 @@ pub fn exec(out: &mut Out, st: &mut State, line: &str) -> (String, bool) {
     }
 }
 
+/// content token of a generated `setcell`: mostly a value, one time in four a formula cell
+fn content_tok(rng: &mut Rng) -> u32 {
+    if rng.chance(1, 4) {
+        FORMULA_TOK + rng.below(5) as u32
+    } else {
+        rng.range(1, 5) as u32
+    }
+}
+
 fn gen_case(rng: &mut Rng, v: &mut Vec<String>, near_limit: bool) {
     let k = rng.range(1, 3);
     v.push(format!("c07 reset {}", k));
@@ -453,10 +557,15 @@ fn gen_case(rng: &mut Rng, v: &mut Vec<String>, near_limit: bool) {
     let base_c: u32 = if near_limit { MAX_COL - 12 } else { 0 };
     let small = |rng: &mut Rng| rng.range(1, 8) as u32;
     let len = rng.range(1, 40);
+    // where cells were placed (relative coordinates, per sheet; stale after structural edits): half of the
+    // move / copy rectangles start at such a place so that the source is not blank most of the time
+    let mut placed: Vec<Vec<(u32, u32)>> = vec![vec![]; k as usize];
     // seed content on every sheet so that "other sheets untouched" is meaningful
     for i in 0..k {
         for _ in 0..rng.range(2, 6) {
-            v.push(format!("c07 cell {} setcell {} {} {} {}", i, base_c + small(rng), base_r + small(rng), rng.range(1, 5), rng.below(3)));
+            let (c, r) = (small(rng), small(rng));
+            placed[i as usize].push((r, c));
+            v.push(format!("c07 cell {} setcell {} {} {} {}", i, base_c + c, base_r + r, content_tok(rng), rng.below(3)));
         }
         if rng.chance(2, 3) {
             let (r, c) = (small(rng), small(rng));
@@ -490,14 +599,39 @@ fn gen_case(rng: &mut Rng, v: &mut Vec<String>, near_limit: bool) {
         let x = rng.below(100);
         let line = match x {
             0..=11 => format!("c07 cell {} setval {} {} {}", i, base_c + small(rng), base_r + small(rng), rng.range(1, 5)),
-            12..=17 => format!("c07 cell {} setcell {} {} {} {}", i, base_c + small(rng), base_r + small(rng), rng.range(1, 5), rng.below(3)),
+            12..=17 => {
+                let (c, r) = (small(rng), small(rng));
+                placed[i as usize].push((r, c));
+                format!("c07 cell {} setcell {} {} {} {}", i, base_c + c, base_r + r, content_tok(rng), rng.below(3))
+            }
             18..=23 => format!("c07 cell {} remove {} {}", i, base_c + small(rng), base_r + small(rng)),
             24..=27 => format!("c07 cell {} setstyle {} {} {}", i, base_c + small(rng), base_r + small(rng), rng.range(1, 4)),
             28..=37 => {
-                let (r, c) = (small(rng), small(rng));
+                let (mut r, mut c) = (small(rng), small(rng));
+                if rng.chance(1, 2) && !placed[i as usize].is_empty() {
+                    let (pr, pc) = placed[i as usize][rng.below(placed[i as usize].len() as u64) as usize];
+                    // the placed cell is the rectangle's first, or lies one row / column inside it
+                    r = if pr > 1 && rng.chance(1, 3) { pr - 1 } else { pr };
+                    c = if pc > 1 && rng.chance(1, 3) { pc - 1 } else { pc };
+                }
                 let (re, ce) = (r + rng.below(3) as u32, c + rng.below(3) as u32);
-                let dr = rng.range(0, 6) as i64 - 3;
-                let dc = rng.range(0, 6) as i64 - 3;
+                let mut dr = rng.range(0, 6) as i64 - 3;
+                let mut dc = rng.range(0, 6) as i64 - 3;
+                // one time in five the destination is pushed against an edge of the grid (row 1 / column 1,
+                // or, in the histories next to the limit, row 1048576 / column 16384)
+                if rng.chance(1, 5) {
+                    if near_limit {
+                        if rng.chance(1, 2) {
+                            dr = MAX_ROW as i64 - (base_r + re) as i64;
+                        } else {
+                            dc = MAX_COL as i64 - (base_c + ce) as i64;
+                        }
+                    } else if rng.chance(1, 2) {
+                        dr = 1 - r as i64;
+                    } else {
+                        dc = 1 - c as i64;
+                    }
+                }
                 let dr = if (base_r + r) as i64 + dr < 1 || (base_r + re) as i64 + dr > MAX_ROW as i64 { 0 } else { dr };
                 let dc = if (base_c + c) as i64 + dc < 1 || (base_c + ce) as i64 + dc > MAX_COL as i64 { 0 } else { dc };
                 format!("c07 cell {} {} {} {} {} {} {} {}", i, if rng.chance(1, 2) { "move" } else { "copy" }, base_r + r, base_r + re, base_c + c, base_c + ce, dr, dc)
